@@ -178,28 +178,31 @@ Theorem C11_parse_encode_partial_TN8 : forall tables,
 Proof. exact parse_encode_TN8. Qed.
 Print Assumptions C11_parse_encode_partial_TN8.
 
-(** Fragment F9 ([in_fragment_F9], a boolean) = the items of F8 WITHOUT Scope directives + STATEMENTS in Method bodies: ONE
-    table; the items are those of F8 (Name with an integer / string / (nested) package value, Device / ThermalZone /
+(** Fragment F9 ([in_fragment_F9], a boolean) = the items of F8 WITHOUT Scope directives + STATEMENTS with constant operands:
+    ONE table; the items are those of F8 (Name with an integer / string / (nested) package value, Device / ThermalZone /
     Processor / PowerResource / Method blocks, Mutex, Event, OperationRegion with constant offset and length; single-NameSeg
-    names; nested to any depth; any admissible PkgLength width) and, directly in the body of a Method (next to
-    declarations, in any order), statements [op(c1, ..., cn)] where [op] is one of Return, Sleep, Stall, LNot (one
-    operand), LAnd, LOr, LEqual, LGreater, LLess (two operands), Break, Continue, BreakPoint (none) and every operand is an
-    integer constant (Zero / One / Ones / Byte- / Word- / DWord- / QWordPrefix) or a string - e.g.
-    Method(_STA){Return(0x0F)}.  The encoded table is shorter than 2^28 bytes.  Productions added: TermList of a Method =
-    declarations and Type1 / Type2 opcodes whose operands are all TermArgs (DefReturn, DefSleep, DefStall, DefLNot,
-    DefLAnd, DefLOr, DefLEqual, DefLGreater, DefLLess, DefBreak, DefContinue, DefBreakPoint), TermArg = integer constant |
-    String.  NOT in the fragment: top-level Scope directives (F9 does not subsume F3 .. F8 - the statements are proved on
-    the direct chain of F2, the Scope / multi-table layers are not redone for them), statements outside Method bodies,
-    operands that are expressions / names / Local / Arg objects, Store and the other operators with a Target, If / Else /
-    While (known finding c11:if-without-body lives there).
+    names; nested to any depth; any admissible PkgLength width) and, anywhere an item may stand - in the body of a Method, of a
+    Device / ThermalZone / Processor / PowerResource, or at the top level of the table, next to declarations and in any
+    order - statements [op(c1, ..., cn)] where [op] is one of Return, Sleep, Stall, LNot (one operand), LAnd, LOr, LEqual,
+    LGreater, LLess (two operands), Break, Continue, BreakPoint (none) and every operand is an integer constant (Zero / One /
+    Ones / Byte- / Word- / DWord- / QWordPrefix) or a string - e.g. Method(_STA){Return(0x0F)}.  The encoded table is shorter
+    than 2^28 bytes.  Productions added: TermList = declarations and Type1 / Type2 opcodes whose operands are all TermArgs
+    (DefReturn, DefSleep, DefStall, DefLNot, DefLAnd, DefLOr, DefLEqual, DefLGreater, DefLLess, DefBreak, DefContinue,
+    DefBreakPoint), TermArg = integer constant | String.  The statements of a Method body are part of the Method's
+    namespace entry (in order); a statement of any other scope is an anonymous entry of that scope.
+    NOT in the fragment: top-level Scope directives and several tables (F9 does not subsume F3 .. F8 / TN8 - the statements
+    are proved on the direct chain of F2, the Scope / multi-table layers are not redone for them), operands that are
+    expressions / names / Local / Arg objects, Store and the other operators with a Target, If / Else / While (known finding
+    c11:if-without-body lives there).
 
     New parser behaviour inside the proved part: the first pass leaves a statement and its operands as consecutive objects
-    of the Method's ScopeBlock (parseArg stops at the first TermArg), passes 2-4 leave them alone, and resolveMethodCalls
+    of the enclosing ScopeBlock (parseArg stops at the first TermArg), passes 2-4 leave them alone, and resolveMethodCalls
     - through connectNonNamedObjArg / attachSiblingsAsArgs with useParent - detaches the [argCount] following siblings
     and appends them to the operator (an exact layer for this pass: Aml/ParserFragF9Calls.v, [lay2] -> [lay5]);
     connectNonNamedObjArgs then finds every operator complete.  The view renders the statements of a Method body into
-    the Method's entry (renderStmt / renderExpr / exprKids), which [ns] does with r_seq.  The item type of F1 .. F8 is
-    shared, so F9 has its own copy with one more constructor (Aml/ParserFragF9*.v). *)
+    the Method's entry (renderStmt / renderExpr / exprKids), which [ns] does with r_seq; elsewhere both list them as
+    anonymous entries (the view after the declarations of the scope, [ns] in program order: a permutation).  The item type of
+    F1 .. F8 is shared, so F9 has its own copy with one more constructor (Aml/ParserFragF9*.v). *)
 Theorem C11_parse_encode_partial_F9 : forall tables,
   wf_program tables = true -> in_fragment_F9 tables = true -> parse_encode_statement tables.
 Proof. exact parse_encode_F9. Qed.
